@@ -637,6 +637,11 @@ func (s *Store) Open() (retErr error) {
 		if !fsutil.PathExists(s.cleanSnapshotPath) {
 			return nil
 		}
+		if fsutil.PathExists(s.peersPath) {
+			// Node recovery is about to rebuild the snapshot store from the log, so
+			// the existing SQLite file must not be carried over in place of it.
+			return nil
+		}
 		fp := &FileFingerprint{}
 		if err := fp.ReadFromFile(s.cleanSnapshotPath); err != nil {
 			s.logger.Printf("failed to read clean snapshot (%s), performing full restore", err)
